@@ -81,12 +81,13 @@ def tree_incidence(n):
 def mst_indices(n, edge_weights):
     """Indices (into spanning_trees(n)) of the minimum-weight spanning trees.
     Tree weights are compared exactly when the weights are integers; otherwise
-    with a relative tolerance of 1e-12 on the sum (sums of <= 5 floats)."""
+    with a relative tolerance of 1e-12 on the sum (sums of <= 5 floats; purely relative, so
+    that uniformly tiny or huge weights are judged like ordinary ones)."""
     T = tree_incidence(n)
     w = np.asarray(edge_weights, dtype=float)
     tw = T @ w
     mn = tw.min()
-    tol = 1e-12 * max(1.0, abs(mn))
+    tol = 1e-12 * abs(mn)      # relative only: weights may be of any magnitude
     return np.nonzero(tw <= mn + tol)[0]
 
 
